@@ -75,7 +75,7 @@ def run_seq(seq, nattr, tag):
 
 def run(tier):
     res = Result(PID)
-    depth = 5 if tier == "quick" else 6
+    depth = 5 if tier == "quick" else 7
     n = 0
     states = 0
     samples = []
